@@ -179,9 +179,13 @@ class Request(HTTPConnection):
         if self.content_type == "application/json":
             data = await self.body
             try:
-                return json.loads(
-                    data.decode(self.content_type.options.get("charset", "utf8"))
-                )
+                text = data.decode(self.content_type.options.get("charset", "utf8"))
+            except (ValueError, LookupError) as exc:
+                # bytes that are not text in the declared charset, or a charset
+                # parameter that names no text encoding
+                raise MalformedJSON(str(exc)) from None
+            try:
+                return json.loads(text)
             except json.JSONDecodeError as exc:
                 raise MalformedJSON(str(exc)) from None
 
